@@ -563,6 +563,10 @@ func (x *treeExec) serve(m, raw string, hdr map[string]string) (o serveOut) {
 	x.last = serveOut{}
 	w := httptest.NewRecorder()
 	req := &http.Request{Method: m, URL: &url.URL{Path: raw}, Header: h, Proto: "HTTP/1.1", ProtoMajor: 1, ProtoMinor: 1, Host: "x"}
+	if len(h) == 0 && x.serveN%4 == 1 {
+		// a hand-built request that has no header map at all (reading a nil map is fine, nobody may write into it)
+		req.Header = nil
+	}
 	if x.serveN%3 == 0 {
 		// the path as the client SENT it differed from the default encoding (net/http then keeps it in RawPath, e.g. a
 		// redundantly escaped letter): routing and parameters are defined on URL.Path, the sent form is only a hint
@@ -1012,6 +1016,34 @@ func (x *treeExec) run(tr *traceWriter) {
 		} else if ui%3 == 0 {
 			pairs = insertPair(pairs, ui%2*2, "withOptional", []string{"false", "1", ""}[ui/3%3])
 		}
+		reg := u.Reg
+		if reg == 0 {
+			reg = 1
+		}
+		if known && len(u.Vals) >= 2 {
+			// calls that a careless memo of earlier results would confuse with the one below: the first two pairs folded
+			// into ONE value (a value may contain the name of another bind and any separator)
+			for _, sep := range []string{"/", ",", "=", "&", "\x00", " "} {
+				folded := decBytes(u.Vals[0][1]) + sep + u.Vals[1][0] + sep + decBytes(u.Vals[1][1])
+				fp := []string{u.Vals[0][0], folded}
+				fv := [][]string{{u.Vals[0][0], encBytes(folded)}}
+				for _, kv := range u.Vals[2:] {
+					fp = append(fp, kv[0], decBytes(kv[1]))
+					fv = append(fv, []string{kv[0], kv[1]})
+				}
+				fout, fpan := "", false
+				func() {
+					defer func() {
+						if r := recover(); r != nil {
+							fpan = true
+						}
+					}()
+					fout = x.f.URLPath(name, fp...)
+				}()
+				tr.emit(map[string]interface{}{"ev": "URLPath", "reg": reg, "known": known, "vals": fv, "withopt": false,
+					"out": encBytes(fout), "panicked": fpan})
+			}
+		}
 		out, panicked := "", false
 		func() {
 			defer func() {
@@ -1021,10 +1053,6 @@ func (x *treeExec) run(tr *traceWriter) {
 			}()
 			out = x.f.URLPath(name, pairs...)
 		}()
-		reg := u.Reg
-		if reg == 0 {
-			reg = 1
-		}
 		tr.emit(map[string]interface{}{"ev": "URLPath", "reg": reg, "known": known, "vals": vals, "withopt": u.WithOpt,
 			"out": encBytes(out), "panicked": panicked})
 		if !panicked {
